@@ -402,7 +402,7 @@ func (f *STFS) MkdirAll(path string, perm os.FileMode) error {
 			f.onHeader,
 		); err != nil {
 			if err == sql.ErrNoRows {
-				if hdr, err := inventory.Stat(
+				if _, err := inventory.Stat(
 					f.metadata,
 
 					currentPath,
@@ -417,7 +417,8 @@ func (f *STFS) MkdirAll(path string, perm os.FileMode) error {
 					} else {
 						return err
 					}
-				} else if hdr.Typeflag != tar.TypeDir {
+				} else {
+					// The name is taken by a link; like Mkdir, don't create entries below a link, not even one to a directory
 					return config.ErrIsFile
 				}
 			} else {
